@@ -46,12 +46,14 @@ theorem not_trig_above (i k : Nat) (h : trig (i + 1) (vOf n ch) = false) (hk : i
 theorem mid_idx (k : Nat) : (mid n ch k).idx = (n.at k).idx := by unfold mid; rw [upd_idx]
 
 /-- loop invariant at the top of iteration `i` of `bh_loop_2!` -/
-structure LI (g : Gen) (i E : Nat) : Prop where
+structure LI (g : Gen) (i E M : Nat) : Prop where
   np : g.panicked = false
   csize : g.ctx.size = 31
   bsize : ∀ k, (g.ctxAt k).bh.size = 64
   lim : g.bhEndLimit ≤ 30
   effE : eff g = E
+  effMM : effM g = M
+  EM : E ≤ M
   roll : g.roll = (n.step ch).roll
   st_le : g.bhStart ≤ i
   i_lt : i < g.bhEnd
@@ -60,22 +62,51 @@ structure LI (g : Gen) (i E : Nat) : Prop where
   done : ∀ k, g.bhStart ≤ k → k < i → Live (g.ctxAt k) ((n.step ch).at k)
   pend : ∀ k, i ≤ k → k < g.bhEnd → Live (g.ctxAt k) (mid n ch k)
   virgin : ∀ k, g.bhEnd ≤ k → k ≤ g.bhEndLimit → (n.at k).idx = 0
-  elim : ∀ k, k < g.bhStart → 192 * 2 ^ k < E ∧ 32 ≤ ((n.step ch).at (k + 1)).idx
+  elim : ∀ k, k < g.bhStart → 192 * 2 ^ k < M ∧ 32 ≤ ((n.step ch).at (k + 1)).idx
   mask : g.rollMask = 2 ^ g.bhStart - 1
   border : g.elimBorder = 192 * 2 ^ g.bhStart
   last : g.bhEndLimit = 30 →
     ((g.isLast = true ↔ 1 ≤ (n.at 30).idx) ∧ (g.isLast = true → g.hLast = fnvAll' bs ch))
   top : g.bhEnd ≤ g.bhEndLimit → (n.at (g.bhEnd - 1)).idx = 0
   trg : ∀ k, i ≤ k → k + 1 < g.bhEnd → 1 ≤ (n.at k).idx
-  casc : g.bhEndLimit = 30 → (n.at 30).idx = 63 → (g.bhStart = i ∨ E ≤ g.elimBorder)
+  casc : (n.at i).idx = 63 → (g.bhStart = i ∨ E ≤ g.elimBorder)
 
-/-- state after iteration `i` -/
-structure AI (g : Gen) (i E : Nat) : Prop where
+/-- state after the fork / last-hash activation half of iteration `i` -/
+structure LF (g : Gen) (i E M : Nat) : Prop where
   np : g.panicked = false
   csize : g.ctx.size = 31
   bsize : ∀ k, (g.ctxAt k).bh.size = 64
   lim : g.bhEndLimit ≤ 30
   effE : eff g = E
+  effMM : effM g = M
+  EM : E ≤ M
+  roll : g.roll = (n.step ch).roll
+  st_le : g.bhStart ≤ i
+  i_lt : i < g.bhEnd
+  en_le : g.bhEnd ≤ 31
+  trigi : trig i (vOf n ch) = true
+  done : ∀ k, g.bhStart ≤ k → k < i → Live (g.ctxAt k) ((n.step ch).at k)
+  pend : ∀ k, i ≤ k → k < g.bhEnd → Live (g.ctxAt k) (mid n ch k)
+  virgin : ∀ k, g.bhEnd ≤ k → k ≤ g.bhEndLimit → (n.at k).idx = 0
+  elim : ∀ k, k < g.bhStart → 192 * 2 ^ k < M ∧ 32 ≤ ((n.step ch).at (k + 1)).idx
+  mask : g.rollMask = 2 ^ g.bhStart - 1
+  border : g.elimBorder = 192 * 2 ^ g.bhStart
+  last : g.bhEndLimit = 30 →
+    ((g.isLast = true ↔ (1 ≤ (n.at 30).idx ∨ i = 30)) ∧ (g.isLast = true → g.hLast = fnvAll' bs ch))
+  top : g.bhEnd ≤ g.bhEndLimit → (n.at (g.bhEnd - 1)).idx = 0
+  notop : g.bhEnd ≤ g.bhEndLimit → i + 1 < g.bhEnd
+  trg : ∀ k, i < k → k + 1 < g.bhEnd → 1 ≤ (n.at k).idx
+  casc : (n.at i).idx = 63 → (g.bhStart = i ∨ E ≤ g.elimBorder)
+
+/-- state after iteration `i` -/
+structure AI (g : Gen) (i E M : Nat) : Prop where
+  np : g.panicked = false
+  csize : g.ctx.size = 31
+  bsize : ∀ k, (g.ctxAt k).bh.size = 64
+  lim : g.bhEndLimit ≤ 30
+  effE : eff g = E
+  effMM : effM g = M
+  EM : E ≤ M
   roll : g.roll = (n.step ch).roll
   st_le : g.bhStart ≤ i + 1
   st_lt : g.bhStart < g.bhEnd
@@ -85,7 +116,7 @@ structure AI (g : Gen) (i E : Nat) : Prop where
   done : ∀ k, g.bhStart ≤ k → k ≤ i → Live (g.ctxAt k) ((n.step ch).at k)
   pend : ∀ k, i < k → k < g.bhEnd → Live (g.ctxAt k) (mid n ch k)
   virgin : ∀ k, g.bhEnd ≤ k → k ≤ g.bhEndLimit → (n.at k).idx = 0
-  elim : ∀ k, k < g.bhStart → 192 * 2 ^ k < E ∧ 32 ≤ ((n.step ch).at (k + 1)).idx
+  elim : ∀ k, k < g.bhStart → 192 * 2 ^ k < M ∧ 32 ≤ ((n.step ch).at (k + 1)).idx
   mask : g.rollMask = 2 ^ g.bhStart - 1
   border : g.elimBorder = 192 * 2 ^ g.bhStart
   last : g.bhEndLimit = 30 →
@@ -93,7 +124,429 @@ structure AI (g : Gen) (i E : Nat) : Prop where
   top : g.bhEnd ≤ g.bhEndLimit → (n.at (g.bhEnd - 1)).idx = 0
   notop : g.bhEnd ≤ g.bhEndLimit → i + 1 < g.bhEnd
   trg : ∀ k, i < k → k + 1 < g.bhEnd → 1 ≤ (n.at k).idx
-  casc : g.bhEndLimit = 30 → (n.at 30).idx = 63 → i + 1 < g.bhEnd → (g.bhStart = i + 1 ∨ E ≤ g.elimBorder)
+  casc : (n.at (i + 1)).idx = 63 → i + 1 < g.bhEnd → (g.bhStart = i + 1 ∨ E ≤ g.elimBorder)
+
+
+theorem fnvAll'_eq : fnvAll' bs ch = fnvStep (fnvUpdate fnvInit bs) ch := by
+  simp [fnvAll', fnvUpdate, List.foldl_append]
+
+/-- the fork / last-hash half of the loop body -/
+theorem fork_spec (hN : NInv n bs) (g : Gen) (i E M : Nat) (h : LI n bs ch g i E M) :
+    LF n bs ch (g.forkStep i) i E M := by
+  have hcur := h.pend i (Nat.le_refl _) h.i_lt
+  have hidx : (g.ctxAt i).idx = (n.at i).idx := by rw [hcur.idx, mid_idx]
+  have hi31 : i < 31 := Nat.lt_of_lt_of_le h.i_lt h.en_le
+  by_cases h0 : (g.ctxAt i).idx = 0
+  · -- the context is empty: it is the top one
+    have hn0 : (n.at i).idx = 0 := by rw [← hidx]; exact h0
+    have htop : i + 1 = g.bhEnd := by
+      by_cases e : i + 1 < g.bhEnd
+      · have := h.trg i (Nat.le_refl _) e; omega
+      · have := h.i_lt; omega
+    have hv := hN.virgin i (by omega) hn0
+    have hfull : (g.ctxAt i).hFull = fnvAll' bs ch := by
+      rw [hcur.hFull, fnvAll'_eq]; unfold mid; rw [upd_hFull, hv.1]
+    have hhalf : (g.ctxAt i).hHalf = fnvAll' bs ch := by
+      rw [hcur.hHalf, fnvAll'_eq]; unfold mid; rw [upd_hHalf, hv.2.1]
+    by_cases hl : g.bhEnd > g.bhEndLimit
+    · by_cases hset : (g.bhEndLimit = 30 && !g.isLast) = true
+      · have e : g.forkStep i = { g with hLast := (g.ctxAt i).hFull, isLast := true } := by
+          unfold Gen.forkStep; simp only [h0, if_true, hl, hset]
+        rw [e]
+        simp only [Bool.and_eq_true, decide_eq_true_eq, Bool.not_eq_true'] at hset
+        have hi30 : i = 30 := by have := h.en_le; omega
+        exact { np := h.np, csize := h.csize, bsize := h.bsize, lim := h.lim, effE := h.effE, effMM := h.effMM, EM := h.EM, roll := h.roll,
+                st_le := h.st_le, i_lt := h.i_lt, en_le := h.en_le, trigi := h.trigi, done := h.done,
+                pend := h.pend, virgin := h.virgin, elim := h.elim, mask := h.mask, border := h.border,
+                last := fun _ => ⟨⟨fun _ => Or.inr hi30, fun _ => rfl⟩, fun _ => hfull⟩,
+                top := h.top, notop := fun hh => absurd hh (Nat.not_le_of_gt hl),
+                trg := fun k hk => h.trg k (by omega), casc := h.casc }
+      · have e : g.forkStep i = g := by
+          unfold Gen.forkStep; simp only [h0, if_true, hl, hset]; rfl
+        rw [e]
+        refine { np := h.np, csize := h.csize, bsize := h.bsize, lim := h.lim, effE := h.effE, effMM := h.effMM, EM := h.EM, roll := h.roll,
+                 st_le := h.st_le, i_lt := h.i_lt, en_le := h.en_le, trigi := h.trigi, done := h.done,
+                 pend := h.pend, virgin := h.virgin, elim := h.elim, mask := h.mask, border := h.border,
+                 last := ?_,
+                 top := h.top, notop := fun hh => absurd hh (Nat.not_le_of_gt hl),
+                 trg := fun k hk => h.trg k (by omega), casc := h.casc }
+        intro h30
+        have hL := h.last h30
+        have hi30 : i = 30 := by have := h.en_le; omega
+        have hisl : g.isLast = true := by
+          cases hb : g.isLast
+          · exfalso; apply hset; simp [h30, hb]
+          · rfl
+        exact ⟨⟨fun _ => Or.inr hi30, fun _ => hisl⟩, hL.2⟩
+    · -- fork
+      have hle : g.bhEnd ≤ g.bhEndLimit := by omega
+      have hi1 : i + 1 < 31 := by have := h.lim; omega
+      have e : g.forkStep i = { g with
+          ctx := g.ctx.setIfInBounds (i + 1)
+            { (g.ctxAt (i + 1)).reset with hFull := (g.ctxAt i).hFull, hHalf := (g.ctxAt i).hHalf },
+          bhEnd := g.bhEnd + 1 } := by
+        unfold Gen.forkStep; simp only [h0, if_true, hl, hi1, if_false]
+      rw [e]
+      have hvn := h.virgin (i + 1) (by omega) (by omega)
+      have hv1 := hN.virgin (i + 1) (by omega) hvn
+      have cat : ∀ k, Gen.ctxAt { g with
+          ctx := g.ctx.setIfInBounds (i + 1)
+            { (g.ctxAt (i + 1)).reset with hFull := (g.ctxAt i).hFull, hHalf := (g.ctxAt i).hHalf },
+          bhEnd := g.bhEnd + 1 } k =
+          if k = i + 1 then { (g.ctxAt (i + 1)).reset with hFull := (g.ctxAt i).hFull, hHalf := (g.ctxAt i).hHalf }
+          else g.ctxAt k := by
+        intro k
+        unfold Gen.ctxAt
+        simp only
+        by_cases ek : k = i + 1
+        · rw [if_pos ek, ek, ctxD_set_same _ _ _ (by rw [h.csize]; exact hi1)]
+        · rw [if_neg ek, ctxD_set_ne _ _ _ _ (Ne.symm ek)]
+      have hnew : Live { (g.ctxAt (i + 1)).reset with hFull := (g.ctxAt i).hFull, hHalf := (g.ctxAt i).hHalf }
+          (mid n ch (i + 1)) := by
+        have hs := h.bsize (i + 1)
+        refine ⟨?_, ?_, ?_, ?_, ?_, ?_, ?_, ?_⟩
+        · rw [mid_idx, hvn]; rfl
+        · unfold mid; rw [upd_chHalf, hv1.2.2.1]; rfl
+        · show (g.ctxAt i).hFull = _
+          rw [hfull, fnvAll'_eq]; unfold mid; rw [upd_hFull, hv1.1]
+        · show (g.ctxAt i).hHalf = _
+          rw [hhalf, fnvAll'_eq]; unfold mid; rw [upd_hHalf, hv1.2.1]
+        · show ((g.ctxAt (i + 1)).bh.setIfInBounds 63 NIL).size = 64
+          simp [hs]
+        · unfold mid; rw [upd_bh]; exact (hN.wf (i + 1) (by omega)).size
+        · show ((g.ctxAt (i + 1)).bh.setIfInBounds 63 NIL).getD 63 NIL = _
+          rw [getD_setIfInBounds_same _ _ _ _ (by rw [hs]; omega)]
+          unfold mid; rw [upd_bh, hv1.2.2.2]
+        · intro j hj; exact absurd hj (Nat.not_lt_zero _)
+      refine { np := h.np, csize := by simp [h.csize], bsize := ?_, lim := h.lim, effE := h.effE, effMM := h.effMM, EM := h.EM, roll := h.roll,
+                 st_le := h.st_le, i_lt := by show i < g.bhEnd + 1; omega, en_le := by show g.bhEnd + 1 ≤ 31; omega,
+                 trigi := h.trigi, done := ?_,
+                 pend := ?_, virgin := ?_, elim := h.elim, mask := h.mask, border := h.border,
+                 last := ?_,
+                 top := ?_, notop := fun _ => by show i + 1 < g.bhEnd + 1; omega,
+                 trg := ?_, casc := h.casc }
+      · intro k; rw [cat k]; split
+        · exact hnew.sa
+        · exact h.bsize k
+      · intro k hk1 hk2; rw [cat k, if_neg (by omega)]; exact h.done k hk1 hk2
+      · intro k hk1 hk2
+        rw [cat k]
+        split
+        · next ek => rw [ek]; exact hnew
+        · next ek => exact h.pend k hk1 (by change k < g.bhEnd + 1 at hk2; omega)
+      · intro k hk1 hk2; exact h.virgin k (by change g.bhEnd + 1 ≤ k at hk1; omega) hk2
+      · intro h30
+        have hL := h.last h30
+        refine ⟨⟨fun hh => Or.inl (hL.1.mp hh), fun hh => ?_⟩, hL.2⟩
+        rcases hh with hh | hh
+        · exact hL.1.mpr hh
+        · change g.bhEndLimit = 30 at h30; omega
+      · intro _
+        show (n.at (g.bhEnd + 1 - 1)).idx = 0
+        have : g.bhEnd + 1 - 1 = i + 1 := by omega
+        rw [this]; exact hvn
+      · intro k hk1 hk2
+        change k + 1 < g.bhEnd + 1 at hk2
+        omega
+  · have e : g.forkStep i = g := by
+      unfold Gen.forkStep; simp only [h0, if_false]
+    rw [e]
+    have hpos : 1 ≤ (n.at i).idx := by rw [← hidx]; omega
+    refine { np := h.np, csize := h.csize, bsize := h.bsize, lim := h.lim, effE := h.effE, effMM := h.effMM, EM := h.EM, roll := h.roll,
+                 st_le := h.st_le, i_lt := h.i_lt, en_le := h.en_le, trigi := h.trigi, done := h.done,
+                 pend := h.pend, virgin := h.virgin, elim := h.elim, mask := h.mask, border := h.border,
+                 last := ?_,
+                 top := h.top, notop := ?_,
+                 trg := fun k hk => h.trg k (by omega), casc := h.casc }
+    · intro h30
+      have hL := h.last h30
+      refine ⟨⟨fun hh => Or.inl (hL.1.mp hh), fun hh => ?_⟩, hL.2⟩
+      rcases hh with hh | hh
+      · exact hL.1.mpr hh
+      · rw [hh] at hpos; exact hL.1.mpr hpos
+    · intro hle
+      have ht := h.top hle
+      have := h.i_lt
+      by_cases e2 : i + 1 = g.bhEnd
+      · have e3 : g.bhEnd - 1 = i := by omega
+        rw [e3] at ht; omega
+      · omega
+
+/-- the piece store of the loop body -/
+def storeG (g : Gen) (i : Nat) : Gen := { g with ctx := g.ctx.setIfInBounds i (g.ctxAt i).storePiece }
+
+theorem storeG_ctxAt (g : Gen) (i k : Nat) (hi : i < g.ctx.size) :
+    (storeG g i).ctxAt k = if k = i then (g.ctxAt i).storePiece else g.ctxAt k := by
+  unfold storeG Gen.ctxAt
+  simp only
+  by_cases ek : k = i
+  · rw [if_pos ek, ek, ctxD_set_same _ _ _ hi]
+  · rw [if_neg ek, ctxD_set_ne _ _ _ _ (Ne.symm ek)]
+
+theorem pow_le_30 (i : Nat) (h : i ≤ 30) : 2 ^ i ≤ 1073741824 := by
+  have : 2 ^ i ≤ 2 ^ 30 := Nat.pow_le_pow_right (by omega) h
+  simpa using this
+
+/-- the state change of a block hash elimination -/
+def elimG (g : Gen) : Gen :=
+  { g with bhStart := g.bhStart + 1, rollMask := (g.rollMask * 2 + 1) % 4294967296,
+           elimBorder := (g.elimBorder * 2) % 18446744073709551616 }
+
+/-- the store and elimination half of the loop body -/
+theorem store_elim_spec (hN : NInv n bs) (g : Gen) (i E M : Nat) (h : LF n bs ch g i E M) :
+    (g.ctxAt i).idx < 64 ∧
+    ((storeG g i).elimStep i (decide ((g.ctxAt i).idx ≥ 63))).panicked = false ∧
+    AI n bs ch ((storeG g i).elimStep i (decide ((g.ctxAt i).idx ≥ 63))) i E M := by
+  have hcur := h.pend i (Nat.le_refl _) h.i_lt
+  have hidx : (g.ctxAt i).idx = (n.at i).idx := by rw [hcur.idx, mid_idx]
+  have hi31 : i < 31 := Nat.lt_of_lt_of_le h.i_lt h.en_le
+  have hwf := hN.wf i (by omega)
+  have hle63 : (g.ctxAt i).idx ≤ 63 := by rw [hidx]; exact hwf.idx
+  have hisz : i < g.ctx.size := by rw [h.csize]; exact hi31
+  have hstored : Live (g.ctxAt i).storePiece ((n.step ch).at i) := by
+    rw [at_step' n bs ch hN i (by omega), if_pos h.trigi]
+    exact Live_store hcur hle63
+  have cat := fun k => storeG_ctxAt g i k hisz
+  -- the state after the store, before elimination
+  have base : AI n bs ch (storeG g i) i E M ∨ True := Or.inr trivial
+  have hAI2 : (E ≤ g.elimBorder ∨ ¬ ((n.at i).idx = 63 ∧ g.bhStart = i ∧ i + 1 < g.bhEnd) ∨ (n.at (i + 1)).idx < 32) →
+      AI n bs ch (storeG g i) i E M := by
+    intro hno
+    refine { np := h.np, csize := by simp [storeG, h.csize], bsize := ?_, lim := h.lim, effE := h.effE, effMM := h.effMM, EM := h.EM, roll := h.roll,
+             st_le := Nat.le_succ_of_le h.st_le, st_lt := Nat.lt_of_le_of_lt h.st_le h.i_lt, i_lt := h.i_lt,
+             en_le := h.en_le, trigi := h.trigi, done := ?_, pend := ?_, virgin := h.virgin, elim := h.elim,
+             mask := h.mask, border := h.border, last := h.last, top := h.top, notop := h.notop, trg := h.trg,
+             casc := ?_ }
+    · intro k; rw [cat k]; split
+      · exact hstored.sa
+      · exact h.bsize k
+    · intro k hk1 hk2; rw [cat k]; split
+      · next ek => rw [ek]; exact hstored
+      · next ek => exact h.done k hk1 (by omega)
+    · intro k hk1 hk2; rw [cat k, if_neg (by omega)]; exact h.pend k (by omega) hk2
+    · intro h63 hlt
+      have hm := hN.mono i hi31
+      have hi63 : (n.at i).idx = 63 := by have := hwf.idx; omega
+      rcases h.casc hi63 with hc | hc
+      · rcases hno with hno | hno | hno
+        · exact Or.inr hno
+        · exact absurd ⟨hi63, hc, hlt⟩ hno
+        · omega
+      · exact Or.inr hc
+  by_cases hcond : (decide ((g.ctxAt i).idx ≥ 63) && decide ((storeG g i).bhEnd - (storeG g i).bhStart ≥ 2) &&
+      decide ((storeG g i).elimBorder < (storeG g i).fixedSize.getD (storeG g i).inputSize)) = true
+  · simp only [Bool.and_eq_true, decide_eq_true_eq] at hcond
+    obtain ⟨⟨hw, hge2⟩, hb⟩ := hcond
+    change g.bhEnd - g.bhStart ≥ 2 at hge2
+    change g.elimBorder < eff g at hb
+    rw [h.effE] at hb
+    have hi63 : (n.at i).idx = 63 := by omega
+    have hst : g.bhStart = i := by
+      rcases h.casc hi63 with hc | hc
+      · exact hc
+      · omega
+    have hlt : i + 1 < g.bhEnd := by omega
+    have hi1 : i + 1 < 31 := by have := h.en_le; omega
+    have hnext : ((storeG g i).ctxAt (i + 1)).idx = (n.at (i + 1)).idx := by
+      rw [cat (i + 1), if_neg (by omega), (h.pend (i + 1) (by omega) hlt).idx, mid_idx]
+    by_cases h32 : ((storeG g i).ctxAt (i + 1)).idx ≥ 32
+    · -- elimination
+      have e : (storeG g i).elimStep i (decide ((g.ctxAt i).idx ≥ 63)) =
+          elimG (storeG g i) := by
+        unfold Gen.elimStep
+        have c1 : (decide ((g.ctxAt i).idx ≥ 63) && decide ((storeG g i).bhEnd - (storeG g i).bhStart ≥ 2) &&
+            decide ((storeG g i).elimBorder < (storeG g i).fixedSize.getD (storeG g i).inputSize)) = true := by
+          simp only [Bool.and_eq_true, decide_eq_true_eq]
+          exact ⟨⟨hw, hge2⟩, by rw [← h.effE] at hb; exact hb⟩
+        rw [if_pos c1, if_pos hi1, if_pos h32]; rfl
+      rw [e]
+      have hp := pow_le_30 i (by omega)
+      have hpos := Nat.two_pow_pos i
+      have hps : 2 ^ (i + 1) = 2 * 2 ^ i := by rw [Nat.pow_succ]; omega
+      refine ⟨by omega, h.np, ?_⟩
+      refine { np := h.np, csize := by simp [storeG, elimG, h.csize], bsize := ?_, lim := h.lim, effE := h.effE, effMM := h.effMM, EM := h.EM, roll := h.roll,
+               st_le := by show g.bhStart + 1 ≤ i + 1; omega, st_lt := by show g.bhStart + 1 < g.bhEnd; omega,
+               i_lt := h.i_lt,
+               en_le := h.en_le, trigi := h.trigi, done := ?_, pend := ?_, virgin := h.virgin, elim := ?_,
+               mask := ?_, border := ?_, last := h.last, top := h.top, notop := h.notop, trg := h.trg,
+               casc := ?_ }
+      · intro k
+        have : Gen.ctxAt (elimG (storeG g i)) k = (storeG g i).ctxAt k := rfl
+        rw [this, cat k]; split
+        · exact hstored.sa
+        · exact h.bsize k
+      · intro k hk1 hk2
+        change g.bhStart + 1 ≤ k at hk1
+        omega
+      · intro k hk1 hk2
+        have : Gen.ctxAt (elimG (storeG g i)) k = (storeG g i).ctxAt k := rfl
+        rw [this, cat k, if_neg (by omega)]; exact h.pend k (by omega) hk2
+      · intro k hk
+        change k < g.bhStart + 1 at hk
+        by_cases ek : k = i
+        · rw [ek]
+          refine ⟨?_, ?_⟩
+          · have hb2 := h.border; have := h.EM; rw [hst] at hb2; omega
+          · have := idx_time_mono n bs ch hN (i + 1) (by omega)
+            rw [hnext] at h32; omega
+        · exact h.elim k (by omega)
+      · show (g.rollMask * 2 + 1) % 4294967296 = 2 ^ (g.bhStart + 1) - 1
+        rw [h.mask, hst, hps]; omega
+      · show (g.elimBorder * 2) % 18446744073709551616 = 192 * 2 ^ (g.bhStart + 1)
+        rw [h.border, hst, hps]; omega
+      · intro _ _; left; show g.bhStart + 1 = i + 1; omega
+    · have e : (storeG g i).elimStep i (decide ((g.ctxAt i).idx ≥ 63)) = storeG g i := by
+        unfold Gen.elimStep
+        have c1 : (decide ((g.ctxAt i).idx ≥ 63) && decide ((storeG g i).bhEnd - (storeG g i).bhStart ≥ 2) &&
+            decide ((storeG g i).elimBorder < (storeG g i).fixedSize.getD (storeG g i).inputSize)) = true := by
+          simp only [Bool.and_eq_true, decide_eq_true_eq]
+          exact ⟨⟨hw, hge2⟩, by rw [← h.effE] at hb; exact hb⟩
+        rw [if_pos c1, if_pos hi1, if_neg h32]
+      rw [e]
+      exact ⟨by omega, h.np, hAI2 (Or.inr (Or.inr (by rw [hnext] at h32; omega)))⟩
+  · have e : (storeG g i).elimStep i (decide ((g.ctxAt i).idx ≥ 63)) = storeG g i := by
+      unfold Gen.elimStep
+      rw [if_neg hcond]
+    rw [e]
+    refine ⟨by omega, h.np, hAI2 ?_⟩
+    simp only [Bool.and_eq_true, decide_eq_true_eq, not_and, Nat.not_lt] at hcond
+    by_cases hx : (n.at i).idx = 63 ∧ g.bhStart = i ∧ i + 1 < g.bhEnd
+    · left
+      have := hcond ⟨by omega, by show g.bhEnd - g.bhStart ≥ 2; omega⟩
+      change eff g ≤ g.elimBorder at this
+      rw [h.effE] at this; exact this
+    · exact Or.inr (Or.inl hx)
+
+theorem trig_below (i k : Nat) (v : UInt32) (h : trig i v = true) (hk : k ≤ i) : trig k v = true := by
+  induction i with
+  | zero => have : k = 0 := by omega
+            rw [this]; exact h
+  | succ i ih =>
+    by_cases e : k = i + 1
+    · rw [e]; exact h
+    · exact ih (trig_mono i v h) (by omega)
+
+/-- the loop goes on: the invariant holds at the next index -/
+theorem ai_cont (g : Gen) (i E M : Nat) (h : AI n bs ch g i E M) (ht : trig (i + 1) (vOf n ch) = true)
+    (hlt : i + 1 < g.bhEnd) : LI n bs ch g (i + 1) E M := by
+  have hen := h.en_le
+  exact { np := h.np, csize := h.csize, bsize := h.bsize, lim := h.lim, effE := h.effE, effMM := h.effMM, EM := h.EM, roll := h.roll,
+          st_le := h.st_le, i_lt := hlt, en_le := h.en_le, trigi := ht,
+          done := fun k h1 h2 => h.done k h1 (by omega),
+          pend := fun k h1 h2 => h.pend k (by omega) h2,
+          virgin := h.virgin, elim := h.elim, mask := h.mask, border := h.border,
+          last := fun h30 => ⟨⟨fun hh => by
+                      rcases (h.last h30).1.mp hh with x | x
+                      · exact x
+                      · omega,
+                    fun hh => (h.last h30).1.mpr (Or.inl hh)⟩, (h.last h30).2⟩,
+          top := h.top, trg := fun k h1 h2 => h.trg k (by omega) h2,
+          casc := fun h63 => h.casc h63 hlt }
+
+/-- the loop ends: the simulation relation holds for the states after the byte -/
+theorem ai_exit (hN : NInv n bs) (g : Gen) (i E M : Nat) (h : AI n bs ch g i E M)
+    (hx : trig (i + 1) (vOf n ch) = false ∨ g.bhEnd ≤ i + 1) : Sim g (n.step ch) ∧ eff g = E := by
+  have hN' := ninv_step n bs ch hN
+  have hen := h.en_le
+  have hlim := h.lim
+  have notrig : ∀ k, i < k → k < g.bhEnd ∨ g.bhEnd ≤ g.bhEndLimit → k < 32 → (n.step ch).at k = mid n ch k := by
+    intro k hk1 hk2 hk3
+    rw [at_step' n bs ch hN k hk3]
+    have : trig k (vOf n ch) = false := by
+      rcases hx with hx | hx
+      · exact not_trig_above n ch i k hx (by omega)
+      · rcases hk2 with hk2 | hk2
+        · omega
+        · have := h.notop hk2; omega
+    rw [this]; simp
+  refine ⟨{ roll := h.roll, np := h.np, csize := h.csize, bsize := h.bsize, lim := h.lim, st_lt := h.st_lt,
+            en_le := h.en_le, live := ?_, virgin := ?_, elim := ?_, mask := h.mask, border := h.border,
+            last := ?_, top := ?_, trg := ?_ }, h.effE⟩
+  · intro k h1 h2
+    by_cases hk : k ≤ i
+    · exact h.done k h1 hk
+    · rw [notrig k (by omega) (Or.inl h2) (by omega)]
+      exact h.pend k (by omega) h2
+  · intro k h1 h2
+    rw [notrig k (by have := h.notop (by omega); omega) (Or.inr (by omega)) (by omega), mid_idx]
+    exact h.virgin k h1 h2
+  · intro k hk; rw [h.effMM]; exact h.elim k hk
+  · intro h30
+    have hL := h.last h30
+    have hv31 := hN'.virgin 31 (by omega) hN'.top
+    have key : (1 ≤ ((n.step ch).at 30).idx) ↔ (1 ≤ (n.at 30).idx ∨ i = 30) := by
+      constructor
+      · intro hp
+        by_cases e : i = 30
+        · exact Or.inr e
+        · left
+          have : (n.step ch).at 30 = mid n ch 30 := by
+            have := h.i_lt
+            apply notrig 30 (by omega) _ (by omega)
+            by_cases e2 : 30 < g.bhEnd
+            · exact Or.inl e2
+            · exact Or.inr (by omega)
+          rw [this, mid_idx] at hp; exact hp
+      · rintro (hp | hp)
+        · have := idx_time_mono n bs ch hN 30 (by omega); omega
+        · rw [← hp]; exact stored_pos n bs ch hN i (by omega) h.trigi
+    refine ⟨hL.1.trans key.symm, fun hh => ?_⟩
+    rw [hL.2 hh, hv31.1]; rfl
+  · intro hle
+    have hn := h.notop hle
+    rw [notrig (g.bhEnd - 1) (by omega) (Or.inl (by omega)) (by omega), mid_idx]
+    exact h.top hle
+  · intro k h1 h2
+    by_cases hk : k ≤ i
+    · exact stored_pos n bs ch hN k (by omega) (trig_below i k _ h.trigi hk)
+    · have := h.trg k (by omega) h2
+      have := idx_time_mono n bs ch hN k (by omega)
+      omega
+
+/-- one iteration of the loop body, as the model computes it -/
+theorem bhLoop2_unfold (g : Gen) (i hh : Nat) (hi : i < 31)
+    (hp1 : (g.forkStep i).panicked = false) (h64 : ((g.forkStep i).ctxAt i).idx < 64)
+    (hp3 : ((storeG (g.forkStep i) i).elimStep i (decide (((g.forkStep i).ctxAt i).idx ≥ 63))).panicked = false) :
+    Gen.bhLoop2 g i hh =
+      if hh % 2 = 1 then (storeG (g.forkStep i) i).elimStep i (decide (((g.forkStep i).ctxAt i).idx ≥ 63))
+      else if i + 1 ≥ ((storeG (g.forkStep i) i).elimStep i (decide (((g.forkStep i).ctxAt i).idx ≥ 63))).bhEnd then
+        (storeG (g.forkStep i) i).elimStep i (decide (((g.forkStep i).ctxAt i).idx ≥ 63))
+      else Gen.bhLoop2 ((storeG (g.forkStep i) i).elimStep i (decide (((g.forkStep i).ctxAt i).idx ≥ 63))) (i + 1) (hh / 2) := by
+  rw [Gen.bhLoop2]
+  simp only [hi, dite_true]
+  rw [if_neg (by rw [hp1]; exact Bool.false_ne_true), if_neg (by omega)]
+  change (if ((storeG (g.forkStep i) i).elimStep i (decide (((g.forkStep i).ctxAt i).idx ≥ 63))).panicked = true then _ else _) = _
+  rw [if_neg (by rw [hp3]; exact Bool.false_ne_true)]
+  rfl
+
+/-- the whole loop: from the invariant at index `i` to the simulation relation after the byte -/
+theorem loop_spec (hN : NInv n bs) : ∀ (m : Nat) (g : Gen) (i E M : Nat), 31 - i = m → LI n bs ch g i E M →
+    Sim (Gen.bhLoop2 g i ((((vOf n ch) + 1).toNat / 3) >>> i)) (n.step ch) ∧
+    eff (Gen.bhLoop2 g i ((((vOf n ch) + 1).toNat / 3) >>> i)) = E := by
+  intro m
+  induction m with
+  | zero => intro g i E M hm h; have := h.i_lt; have := h.en_le; omega
+  | succ m ih =>
+    intro g i E M hm h
+    have hi31 : i < 31 := Nat.lt_of_lt_of_le h.i_lt h.en_le
+    have hF := fork_spec n bs ch hN g i E M h
+    obtain ⟨h64, hp3, hA⟩ := store_elim_spec n bs ch hN (g.forkStep i) i E M hF
+    rw [bhLoop2_unfold g i _ hi31 hF.np h64 hp3]
+    have hts := trig_succ_iff (vOf n ch) i h.trigi
+    by_cases hodd : ((((vOf n ch) + 1).toNat / 3) >>> i) % 2 = 1
+    · rw [if_pos hodd]
+      apply ai_exit n bs ch hN _ i E M hA
+      left
+      cases ht : trig (i + 1) (vOf n ch)
+      · rfl
+      · have := hts.mp ht; omega
+    · rw [if_neg hodd]
+      split
+      · next hge => exact ai_exit n bs ch hN _ i E M hA (Or.inr hge)
+      · next hge =>
+        rw [← shiftRight_succ]
+        apply ih _ (i + 1) E M (by omega)
+        exact ai_cont n bs ch _ i E M hA (hts.mpr (by omega)) (by omega)
 
 end
 end Ffuzzy.GenSim
